@@ -27,6 +27,9 @@ R3 (K2) _clear_obsolete_packs: delete(filename) is unreachable when `name in pre
 R4 (K5/K2) reload_pack_names assigns _packs_at_load the *original* disk nodes (4th result), not the merged set;
    _restart_autopack / _restart_pack_operations re-raise the original error when reload found nothing new and raise the
    retry exception otherwise, never returning normally; autopack()/pack() loop again on the retry exception.
+R6 (K2) allocate(): under `<pack>.name in self._names` every path raises (no quiet return for a name already listed).
+R7 (K6) ErrorConvertingTransport converts NoSuchFile in each tabled read entry point (get_bytes, readv) and the pack
+   collection wraps both its index and upload transports with it.
 Does not decide: interleavings; these are the per-process obligations each of which the interleaving argument needs.
 """
 ASSUMPTIONS = ["repo.control_files.lock_write() (names mutex) gives mutual exclusion between processes (C26)"]
@@ -128,6 +131,34 @@ def run(ctx):
         ok = bool(hs) and all(set(calls) & g.reach([h]) for h in hs)
         ctx.check("R4-retry-loop", where, ok, f"{meth}(): catching {exc} leads back to {callee}()", message=f"{meth}() no longer retries after {exc}")
 
+    # ---- R6: allocate() refuses a pack name that is already listed ---------------------------------------------------
+    # The "already exists" error is what stops _execute_pack_operations when a packer, after a concurrent pack and a
+    # retry, reproduces one of its own source packs (same content, same md5 name): returning quietly lets it go on to
+    # pop that name, write pack-names without it and move the only copy to obsolete_packs/.
+    fal, gal, wal = fn_cfg(ctx, PR, f"{COLL}.allocate")
+    galx = gal.without_exc_edges()
+    dup = [n.id for n in galx.nodes if n.kind == "test" and any(isinstance(c, ast.Compare) and isinstance(c.ops[0], ast.In) and norm(c.left).endswith(".name") and norm(c.comparators[0]) == "self._names" for c in ast.walk(n.ast))]
+    ctx.require(len(dup) >= 1, f"{wal}: the `<pack>.name in self._names` test was not found")
+    t_succ = [b for t in dup for (b, l_) in galx.succ[t] if l_ == "T"]
+    r6 = galx.reach(t_succ, include_src=True)
+    w6 = galx.path(t_succ, [galx.exit]) if galx.exit in r6 else None
+    ctx.check("R6-allocate-refuses-duplicate", wal, galx.exit not in r6, "when the pack's name is already listed, allocate() raises on every path", construct="a normal return under `name in self._names`", message="allocate() can return normally for a pack whose name is already in pack-names: after a concurrent pack and a retry, a packer that reproduces one of its source packs no longer stops — it removes that name from the list and obsoletes the only copy of the data", witness=galx.show_path(w6) if w6 else None)
+    # ---- R7: index and upload transports convert NoSuchFile at every read entry point ---------------------------------
+    # CombinedGraphIndex reloads pack-names only on bzrformats' NoSuchFile.  The entry points the index implementations
+    # read through are tabled (hand-confirmed on the pinned tree: get_bytes for whole-file GraphIndex reads, readv for
+    # paged reads); the wrapper must define each with a handler that converts, and the collection must wrap both
+    # transports with it.
+    TR = "breezy/transport/__init__.py"
+    READ_ENTRY_POINTS = ("get_bytes", "readv")
+    wcls = repo.cls(TR, "ErrorConvertingTransport")
+    for meth in READ_ENTRY_POINTS:
+        f_ = next((m for m in wcls.body if isinstance(m, ast.FunctionDef) and m.name == meth), None)
+        conv = f_ is not None and any(isinstance(h, ast.ExceptHandler) and h.type is not None and "NoSuchFile" in norm(h.type) and any(call_attr(c) == "_convert" for c in calls_in(h)) for h in ast.walk(f_))
+        ctx.check("R7-missing-file-error-converted", f"{TR}:ErrorConvertingTransport.{meth}", conv, f"{meth}() converts the transport's NoSuchFile into the one the indices reload on", message=f"ErrorConvertingTransport no longer converts NoSuchFile raised by {meth}(): a reader holding a pre-pack view that reads an index through {meth}() after a concurrent pack gets a hard NoSuchFile instead of reloading pack-names, although the data is in the new pack")
+    finit = repo.func(PR, f"{COLL}.__init__")
+    wrapped = {norm(s_.targets[0]) for s_ in walk_own(finit) if isinstance(s_, ast.Assign) and isinstance(s_.value, ast.Call) and norm(s_.value.func).endswith("ErrorConvertingTransport")}
+    ctx.check("R7-missing-file-error-converted", f"{PR}:{COLL}.__init__", {"self._index_transport", "self._upload_transport"} <= wrapped, f"the index and upload transports are wrapped ({sorted(wrapped)})")
+
 
 def _unpack_names(fn, callee):
     for n in walk_own(fn):
@@ -137,6 +168,8 @@ def _unpack_names(fn, callee):
 
 
 MUTANTS = [
+    Mutant("allocate tolerates a name that is already listed", PR, "        if a_new_pack.name in self._names:\n            raise errors.BzrError(f\"Pack {a_new_pack.name!r} already exists in {self}\")\n", "        if a_new_pack.name in self._names:\n            if self._names[a_new_pack.name] == tuple(a_new_pack.index_sizes):\n                return\n            raise errors.BzrError(f\"Pack {a_new_pack.name!r} already exists in {self}\")\n", expect="R6-allocate-refuses-duplicate"),
+    Mutant("whole-file index reads no longer converted", "breezy/transport/__init__.py", "    def get_bytes(self, relpath):\n        try:\n            return self._transport.get_bytes(relpath)\n        except NoSuchFile as e:\n            self._convert(e)\n\n", "", expect="R7-missing-file-error-converted"),
     Mutant("drop difference_update(deleted_nodes)", PR, "        disk_nodes.difference_update(deleted_nodes)\n", "", expect="R2-three-way-merge"),
     Mutant("new_nodes computed against disk instead of at-load", PR, "        new_nodes = current_nodes - self._packs_at_load\n", "        new_nodes = current_nodes - disk_nodes\n", expect=["R2-new", "R2-three-way-merge"]),
     Mutant("orig_disk_nodes aliased (mutated by the merge)", PR, "        orig_disk_nodes = set(disk_nodes)\n", "        orig_disk_nodes = disk_nodes\n", expect="R2-orig-disk"),
